@@ -25,9 +25,9 @@ PART = {'arr': 1, 'arri': 1, 'arrr': 1, 'seg': 1, 'hset': 1, 'hseto': 1, 'hset1'
         'hmap': 2, 'hmm': 2, 'tset': 2, 'tsetf': 2, 'tmap': 2, 'tsmall': 2, 'pool': 2, 'pool1': 2}
 
 
-# stdish hashed wrappers use HashSetSettings with momo's debug self check (pvExtraCheck calls the functors again and asserts
+# stdish wrappers use the default HashSetSettings / TreeSetSettings with momo's debug self check (pvExtraCheck calls the functors again and asserts
 # if they throw): injected functor failures are meaningless there; they are exercised through the momo containers instead
-NO_FUNCTOR_FAILURES = ('suset', 'sumap', 'summap')
+NO_FUNCTOR_FAILURES = ('suset', 'sumap', 'summap', 'sset', 'smap', 'smmap')
 
 
 def growcap(cap, mincap):       # ArraySettings<>::GrowCapacity(cap, mincap, add, linear=false) for cap <= 64 (input to the model only)
